@@ -76,7 +76,31 @@ Example C17_stream_nonvacuous :
   = ([Ok [104; 105]; Ok []; Ok [1; 2; 3]], ([9], [])).
 Proof. exact wstream_nonvacuous. Qed.
 
+(* whole sessions - send() is wrap, sendall, recv: for any requests and any answers (one per request; any ports, version
+   and payload up to 65535 bytes) read under any schedule, the transport writes exactly the standard wrapped requests in
+   order, one sendall() each, every send() returns its answer's payload whole, and what follows the answers stays unread *)
+Theorem C17_session_any_schedule : forall client server reqs answers tail sched written,
+  client < 65536 -> server < 65536 -> Forall (fun q => len q < 65536) reqs -> Forall wmsg_ok answers ->
+  length answers = length reqs -> sched_ok sched ->
+  exists sched', sched_ok sched' /\
+    tcp_session client server reqs ((wstream answers ++ tail, sched), written)
+    = (map (fun m => Ok (wmsg_payload m)) answers,
+       ((tail, sched'), written ++ map (std_request client server) reqs)).
+Proof. exact tcp_session_any_schedule. Qed.
+
+(* a request the 16-bit length field cannot describe is refused before anything is written or read *)
+Theorem C17_send_too_long_refused : forall client server q st,
+  client < 65536 -> server < 65536 -> 65536 <= len q ->
+  exists e, tcp_send client server q st = (Err e, st).
+Proof. exact tcp_send_too_long_refused. Qed.
+
+Example C17_session_nonvacuous :
+  tcp_session 16 1 [[192; 1]; [98; 0]] ((wstream [(1, 1, 16, [196; 1; 0]); (1, 1, 16, [99])] ++ [7], [3; 1; 9; 2; 2; 2]%nat), [])
+  = ([Ok [196; 1; 0]; Ok [99]], (([7], []), [std_request 16 1 [192; 1]; std_request 16 1 [98; 0]])).
+Proof. exact tcp_session_nonvacuous. Qed.
+
 Print Assumptions C17_recv_any_schedule.
 Print Assumptions C17_wrapper_roundtrip.
 Print Assumptions C17_recv_stream_any_schedule.
 Print Assumptions C17_recv_stream_eof.
+Print Assumptions C17_session_any_schedule.
